@@ -16,11 +16,17 @@ func init() {
 // returned only if every node path exists with the kind the file rule gives it -- so an impossible demand must be an
 // error -- and the entries made are exactly the distinct node paths; consistent demands succeed.
 func VerifC06Dup() {
-	n := verifN()
+	n := verifN() % 10
 	lines, rows := wellFormedLines(n, verifName)
 	nodes, roots := specForest(lines)
 	verifAssume(len(roots) >= 2)
+	c06MaxExts = 2
+	if verifN()/10 == 1 {
+		verifAssume(len(roots) >= 3) // (the wide variant: many roots, few levels, at most one extension)
+		c06MaxExts = 1
+	}
 	exts := c06Exts()
+	c06MaxExts = 2
 	vfsReset()
 	vfsSeal()
 	verifContext("C06.dup")
@@ -86,9 +92,12 @@ func wantKind(childless bool, name string, exts []string) int {
 	return 1
 }
 
+// c06MaxExts: how many opaque extensions c06Exts draws at most (2 unless a wide job lowers it)
+var c06MaxExts uint = 2
+
 func c06Exts() []string {
 	var exts []string
-	k := int(verifChoose("nexts", 0, 2))
+	k := int(verifChoose("nexts", 0, c06MaxExts))
 	for i := 0; i < k; i++ {
 		exts = append(exts, verifStr("ext"))
 	}
